@@ -44,17 +44,21 @@ CHECKS = {
                 text="TLC checks that candidate generation through the left R-tree plus the exact point test yields exactly the P-level set "
                      "of intersecting pairs, and computes the joined table (rows as a bag, column roles, unmatched rows) for inner / left / "
                      "right; every configuration is replayed through sjoin (suffixes, clashes, index names, missing / empty geometries); "
-                     "random frames judged by TLC.",
+                     "inner / left joins repeated with a Dask left frame of 1-3 partitions; random frames judged by TLC.",
                 technique="TLC model checking (design = relational definition); spec->code replay; code->spec trace validation",
                 ref="§6 C05"),
-    "C06": dict(engine="DaskFrame/MC_DaskFrame (+ GeoFrameOps, SJoin, RTree)",
+    "C06": dict(engine="DaskFrame/MC_DaskFrame, World/MC_World/Trace_World (+ GeoFrameOps, SJoin, RTree)",
                 text="State machine of a Dask frame (partitions, cached partition bounds) with provenance actions (touch caches, row filter, "
                      "column selection) and queries; TLC checks that the partition-level mechanism (partition bounds, NaN for empty / inert "
                      "partitions, partition R-tree, per-partition cx, right-frame pre-filter of sjoin, nanmin/nanmax total bounds) equals the "
                      "pandas meaning on the concatenated rows and that a cache always describes its own frame; behaviours are replayed on "
                      "real DaskGeoDataFrames with exactly those partitions (optionally through parquet) and compared with the model and with "
-                     "pandas on compute().",
-                technique="TLC model checking of a state machine with caches; spec->code replay; differential against pandas on the concatenated frame",
+                     "pandas on compute(). Two further stages bind the cross-feature model World (one frame with two geometry columns through "
+                     "18 transformations and 10 observations): behaviours drawn by tlc -simulate are replayed on real objects with every "
+                     "observation compared (spec->code), and histories chosen by a random driver on real objects are judged by Trace_World "
+                     "(code->spec).",
+                technique="TLC model checking of a state machine with caches; spec->code replay of exhaustive and simulated behaviours; code->spec "
+                          "trace validation of driver histories; differential against pandas on the concatenated frame",
                 ref="§6 C06"),
     "C07": dict(engine="Hilbert/HilbertSkilling/MC_Hilbert/Trace_Hilbert",
                 text="TLC checks the finite transducer lemma L1-L4 (from which bijectivity, unit steps, corners and refinement follow for "
